@@ -806,6 +806,21 @@ func (s *Sim) checkClaimsAndIdentity(v *recView) {
 			if in.Namespace != set.Namespace {
 				s.violate("C06", "C06.identity", "claim-namespace", fmt.Sprintf("claim %s created in namespace %q", c.Name, in.Namespace))
 			}
+		case c.Kind == KPod && c.Verb == "update":
+			// identity / storage repair of an adopted or drifted pod: the claims it is
+			// bound to must exist before the pod is written, as for a create
+			s.count("probe.pod_storage_repair")
+			if len(c.MissingClaims) > 0 {
+				var own []string
+				for _, m := range c.MissingClaims {
+					if _, _, ok := claimOrdinal(set, m); ok {
+						own = append(own, m)
+					}
+				}
+				if len(own) > 0 {
+					s.violate("C06", "C06.claim-before-pod", "update", fmt.Sprintf("pod %s written with volumes bound to claims %v that do not exist", c.Name, own))
+				}
+			}
 		case c.Kind == KPod && c.Verb == "create":
 			pod := c.In.(*v1.Pod)
 			_, ord, ok := podOrdinal(pod.Name)
